@@ -13,6 +13,7 @@
 package c13
 
 import (
+	"context"
 	"errors"
 	"fmt"
 	"sort"
@@ -23,6 +24,7 @@ import (
 
 	"gorm.io/gorm"
 	"gorm.io/gorm/clause"
+	"gorm.io/gorm/logger"
 	"pgregory.net/rapid"
 
 	"verif/internal/evid"
@@ -204,6 +206,63 @@ func (m *Mixed) AfterCreate(tx *gorm.DB) error  { return m.fire(tx, "Mixed", hAf
 func (m *Mixed) BeforeUpdate(tx *gorm.DB) error { return m.fire(tx, "Mixed", hBeforeUpdate) }
 func (m *Mixed) AfterUpdate(tx *gorm.DB) error  { return m.fire(tx, "Mixed", hAfterUpdate) }
 
+// ValueRecv declares all nine hooks on the value (as gorm's own test models do): every hook sees a copy.
+type ValueRecv struct{ Flat }
+
+func (m ValueRecv) BeforeSave(tx *gorm.DB) error { return m.Flat.fire(tx, "ValueRecv", hBeforeSave) }
+func (m ValueRecv) BeforeCreate(tx *gorm.DB) error {
+	return m.Flat.fire(tx, "ValueRecv", hBeforeCreate)
+}
+func (m ValueRecv) AfterCreate(tx *gorm.DB) error { return m.Flat.fire(tx, "ValueRecv", hAfterCreate) }
+func (m ValueRecv) BeforeUpdate(tx *gorm.DB) error {
+	return m.Flat.fire(tx, "ValueRecv", hBeforeUpdate)
+}
+func (m ValueRecv) AfterUpdate(tx *gorm.DB) error { return m.Flat.fire(tx, "ValueRecv", hAfterUpdate) }
+func (m ValueRecv) AfterSave(tx *gorm.DB) error   { return m.Flat.fire(tx, "ValueRecv", hAfterSave) }
+func (m ValueRecv) BeforeDelete(tx *gorm.DB) error {
+	return m.Flat.fire(tx, "ValueRecv", hBeforeDelete)
+}
+func (m ValueRecv) AfterDelete(tx *gorm.DB) error { return m.Flat.fire(tx, "ValueRecv", hAfterDelete) }
+func (m ValueRecv) AfterFind(tx *gorm.DB) error   { return m.Flat.fire(tx, "ValueRecv", hAfterFind) }
+
+// HookBase carries hooks that Promoted only has by method promotion from the embedded struct.
+type HookBase struct{ Flat }
+
+func (b *HookBase) BeforeCreate(tx *gorm.DB) error { return b.fire(tx, "Promoted", hBeforeCreate) }
+func (b *HookBase) AfterCreate(tx *gorm.DB) error  { return b.fire(tx, "Promoted", hAfterCreate) }
+func (b *HookBase) BeforeUpdate(tx *gorm.DB) error { return b.fire(tx, "Promoted", hBeforeUpdate) }
+func (b *HookBase) AfterSave(tx *gorm.DB) error    { return b.fire(tx, "Promoted", hAfterSave) }
+func (b *HookBase) BeforeDelete(tx *gorm.DB) error { return b.fire(tx, "Promoted", hBeforeDelete) }
+func (b *HookBase) AfterFind(tx *gorm.DB) error    { return b.fire(tx, "Promoted", hAfterFind) }
+
+type Promoted struct{ HookBase }
+
+// Soft is soft-deleted: Delete sends an UPDATE, yet it is the delete hooks that apply (and the
+// update hooks that do not).
+type Soft struct {
+	Flat
+	DeletedAt gorm.DeletedAt
+}
+
+func (m *Soft) BeforeUpdate(tx *gorm.DB) error { return m.fire(tx, "Soft", hBeforeUpdate) }
+func (m *Soft) AfterUpdate(tx *gorm.DB) error  { return m.fire(tx, "Soft", hAfterUpdate) }
+func (m *Soft) BeforeDelete(tx *gorm.DB) error { return m.fire(tx, "Soft", hBeforeDelete) }
+func (m *Soft) AfterDelete(tx *gorm.DB) error  { return m.fire(tx, "Soft", hAfterDelete) }
+func (m *Soft) AfterFind(tx *gorm.DB) error    { return m.fire(tx, "Soft", hAfterFind) }
+
+func (ValueRecv) TableName() string { return "flats" }
+func (Promoted) TableName() string  { return "flats" }
+func (Soft) TableName() string      { return "softs" }
+
+// AuditRow is what a hook stores with a gorm Create through its handle (no hooks of its own).
+type AuditRow struct {
+	ID   uint `gorm:"primaryKey"`
+	N    int
+	What string
+}
+
+func (AuditRow) TableName() string { return "audits" }
+
 // Plain has no hook at all; its has-many children (Child) have all of them.
 type Plain struct {
 	Flat
@@ -270,6 +329,7 @@ type kit struct {
 	valueHooks map[string]bool // method set of T: hooks declared on the value (they see a copy)
 	hasBoss    bool            // Parent: also the has-one Desk and the many2many Friends
 	hasKids    bool
+	soft       bool // soft delete: Delete sends an UPDATE unless Unscoped
 	build      func(c *Case) *memory
 	updateWith func(note string, age int, name string) interface{} // struct argument of Updates
 	zero       func() interface{}                                  // a fresh zero value pointer (Model(..) of map creates)
@@ -393,7 +453,7 @@ func makeKit[T any, PT flatPtr[T]](name, table string) *kit {
 var kits = map[string]*kit{}
 
 // modelNames in generation order (Parent is the full-featured model and is drawn most often).
-var modelNames = []string{"Parent", "SaveOnly", "AfterSaveOnly", "CreateOnly", "UpdateOnly", "DeleteOnly", "FindOnly", "Mixed", "Plain"}
+var modelNames = []string{"Parent", "SaveOnly", "AfterSaveOnly", "CreateOnly", "UpdateOnly", "DeleteOnly", "FindOnly", "Mixed", "Plain", "ValueRecv", "Promoted", "Soft"}
 
 func init() {
 	kits["Parent"] = &kit{name: "Parent", table: "parents", hooks: hookSetOf(&Parent{}), valueHooks: hookSetOf(Parent{}),
@@ -407,6 +467,10 @@ func init() {
 	kits["FindOnly"] = makeKit[FindOnly]("FindOnly", "flats")
 	kits["Mixed"] = makeKit[Mixed]("Mixed", "flats")
 	kits["Plain"] = makeKit[Plain]("Plain", "plains")
+	kits["ValueRecv"] = makeKit[ValueRecv]("ValueRecv", "flats")
+	kits["Promoted"] = makeKit[Promoted]("Promoted", "flats")
+	kits["Soft"] = makeKit[Soft]("Soft", "softs")
+	kits["Soft"].soft = true
 }
 
 func (c *Case) kit() *kit {
@@ -469,7 +533,13 @@ func (r *runState) hook(tx *gorm.DB, model, name string, ptr unsafe.Pointer, tag
 	}
 	if r.c.Audit {
 		// a side row written through the hook's handle: part of what the operation did
-		if err := tx.Exec("INSERT INTO audits (n, what) VALUES (?, ?)", n, model+"."+name+"("+tag+")").Error; err != nil && iv.ProbeErr == nil {
+		var err error
+		if r.c.AuditCreate {
+			err = tx.Create(&AuditRow{N: n, What: model + "." + name + "(" + tag + ")"}).Error // a whole nested operation
+		} else {
+			err = tx.Exec("INSERT INTO audits (n, what) VALUES (?, ?)", n, model+"."+name+"("+tag+")").Error
+		}
+		if err != nil && iv.ProbeErr == nil {
 			iv.ProbeErr = err
 		}
 	}
@@ -553,6 +623,10 @@ const (
 )
 
 type Case struct {
+	Handle      string // flavour of the handle the operation starts from: "" | "withcontext" | "session-initialized" | "session-newdb" | "debug"
+	AuditCreate bool   // with Audit: the side row is stored by tx.Create(&AuditRow{}) instead of tx.Exec
+	History     string // what happened to the handle before: "" | "sibling-skiphooks" | "after-updatecolumn"
+	Unscoped    bool   // delete: Unscoped() (hard delete of a soft-delete model)
 	Via         string // find: "" | "batches" (FindInBatches); first: "" | "take" | "last" | "firstorinit" | "firstorcreate"; pluck: "pluck" | "count"
 	CondTag     string // FirstOrInit / FirstOrCreate: the condition is map{"tag": CondTag}
 	CondForm    string // delete / update by condition: "where" (inline or chained Where) | "pk" (primary keys as inline argument) | "chain"
@@ -630,6 +704,18 @@ func (c Case) String() string {
 	}
 	if c.Audit {
 		b.WriteString(" hooks-write-audits")
+	}
+	if c.AuditCreate {
+		b.WriteString("-by-Create")
+	}
+	if c.History != "" {
+		b.WriteString(" history=" + c.History)
+	}
+	if c.Handle != "" {
+		b.WriteString(" handle=" + c.Handle)
+	}
+	if c.Unscoped {
+		b.WriteString(" Unscoped")
 	}
 	if c.PresetLines {
 		b.WriteString(" item-lines-preset")
@@ -761,7 +847,7 @@ func openDB(c *Case) *testdb.DB {
 	d := testdb.Open(testdb.Options{NoReturning: c.NoReturning, Config: gorm.Config{DisableForeignKeyConstraintWhenMigrating: true,
 		SkipDefaultTransaction: c.SkipDefTx == "config", PrepareStmt: c.Prepare == "config"}})
 	if ddl == nil {
-		if err := d.AutoMigrate(&Parent{}, &Child{}, &Item{}, &SaveOnly{}, &Plain{}); err != nil {
+		if err := d.AutoMigrate(&Parent{}, &Child{}, &Item{}, &SaveOnly{}, &Plain{}, &Soft{}); err != nil {
 			panic("harness: migrate: " + err.Error())
 		}
 		if err := d.Exec("CREATE TABLE audits (id integer PRIMARY KEY AUTOINCREMENT, n integer, what text)").Error; err != nil {
@@ -814,6 +900,7 @@ type pRow struct {
 	Age      int
 	BossID   *uint
 	MentorID *uint
+	Deleted  bool // soft-deleted
 }
 
 type iRow struct {
@@ -863,7 +950,11 @@ func (t tables) String() string {
 	var b strings.Builder
 	b.WriteString(t.Main + ":")
 	for _, r := range t.P {
-		fmt.Fprintf(&b, " {%d %s %q %q %d boss=%s mentor=%s}", r.ID, r.Tag, r.Name, r.Note, r.Age, up(r.BossID), up(r.MentorID))
+		fmt.Fprintf(&b, " {%d %s %q %q %d boss=%s mentor=%s", r.ID, r.Tag, r.Name, r.Note, r.Age, up(r.BossID), up(r.MentorID))
+		if r.Deleted {
+			b.WriteString(" DELETED")
+		}
+		b.WriteString("}")
 	}
 	b.WriteString(" children:")
 	for _, r := range t.C {
@@ -896,9 +987,11 @@ func dump(d *testdb.DB, c *Case) (tables, string) {
 	d.Rec.Pause()
 	saved := cur
 	cur = nil
-	boss := "NULL AS boss_id, NULL AS mentor_id"
+	boss := "NULL AS boss_id, NULL AS mentor_id, 0 AS deleted"
 	if t.Main == "parents" {
-		boss = "boss_id, mentor_id"
+		boss = "boss_id, mentor_id, 0 AS deleted"
+	} else if t.Main == "softs" {
+		boss = "NULL AS boss_id, NULL AS mentor_id, deleted_at IS NOT NULL AS deleted"
 	}
 	e6 := d.Raw("SELECT parent_id, line_no, tag, name FROM items ORDER BY parent_id, line_no, tag").Scan(&t.I).Error
 	e1 := d.Raw("SELECT id, tag, name, note, age, " + boss + " FROM " + t.Main + " ORDER BY id").Scan(&t.P).Error
@@ -908,13 +1001,13 @@ func dump(d *testdb.DB, c *Case) (tables, string) {
 	}
 	e3 := d.Raw("SELECT name, seq FROM sqlite_sequence ORDER BY name").Scan(&seqs).Error
 	e4 := d.Raw("SELECT id, n, what FROM audits ORDER BY id").Scan(&t.A).Error
-	e5 := d.Raw("SELECT count(*) FROM parents UNION ALL SELECT count(*) FROM flats UNION ALL SELECT count(*) FROM plains").Scan(&others).Error
+	e5 := d.Raw("SELECT count(*) FROM parents UNION ALL SELECT count(*) FROM flats UNION ALL SELECT count(*) FROM plains UNION ALL SELECT count(*) FROM softs").Scan(&others).Error
 	cur = saved
 	d.Rec.Resume()
 	if e1 != nil || e2 != nil || e3 != nil || e4 != nil || e5 != nil || e6 != nil {
 		panic(fmt.Sprintf("harness: dump: %v %v %v %v %v %v", e1, e2, e3, e4, e5, e6))
 	}
-	return t, fmt.Sprintf("%s seq=%v rows(parents,flats,plains)=%v", t, seqs, others)
+	return t, fmt.Sprintf("%s seq=%v rows(parents,flats,plains,softs)=%v", t, seqs, others)
 }
 
 // ---- in-memory arguments ------------------------------------------------------------------------
@@ -1084,6 +1177,21 @@ func buildParentMem(c *Case) *memory {
 
 // exec runs the operation on db.
 func (c *Case) exec(db *gorm.DB, m *memory) *gorm.DB {
+	switch c.Handle {
+	case "withcontext":
+		db = db.WithContext(context.WithValue(context.Background(), ctxKey{}, "c13"))
+	case "session-initialized":
+		db = db.Session(&gorm.Session{Initialized: true})
+	case "session-newdb":
+		db = db.Session(&gorm.Session{NewDB: true})
+	case "debug":
+		db = db.Debug().Session(&gorm.Session{Logger: logger.Discard})
+	}
+	if c.History == "sibling-skiphooks" {
+		// a SkipHooks session was derived from this very handle before; it must not reach the handle itself
+		db = db.Session(&gorm.Session{})
+		_ = db.Session(&gorm.Session{SkipHooks: true}).Where("id > ?", 0)
+	}
 	if c.SkipHooks {
 		db = db.Session(&gorm.Session{SkipHooks: true})
 	}
@@ -1128,6 +1236,13 @@ func (c *Case) exec(db *gorm.DB, m *memory) *gorm.DB {
 				tx = tx.Where("id IN ?", c.IDs)
 			}
 		}
+		if c.History == "after-updatecolumn" {
+			// the reusable handle first ran a column update (which runs no hooks and changes nothing here)
+			tx = tx.Session(&gorm.Session{})
+			if r := tx.UpdateColumn("age", gorm.Expr("age")); r.Error != nil {
+				return r
+			}
+		}
 		switch c.Op {
 		case opUpdates:
 			return tx.Updates(c.updateValues())
@@ -1145,6 +1260,9 @@ func (c *Case) exec(db *gorm.DB, m *memory) *gorm.DB {
 		}
 		if c.Returning {
 			db = db.Clauses(clause.Returning{})
+		}
+		if c.Unscoped {
+			db = db.Unscoped()
 		}
 		if c.Shape == shCond {
 			switch c.CondForm {
@@ -1196,6 +1314,8 @@ func (c *Case) exec(db *gorm.DB, m *memory) *gorm.DB {
 	}
 	panic("harness: unknown op " + c.Op)
 }
+
+type ctxKey struct{}
 
 const callerName = "caller"
 
@@ -1701,6 +1821,9 @@ func checkFaultFree(c *Case, ex expectation, res runResult) []string {
 		stmtSeen := false
 		sp := span{lastBefore: -1, firstAfter: len(log)}
 		verb := verbOf(w.Kind)
+		if w.Kind == "delete" && w.Parent == "" && c.kit().soft && !c.Unscoped {
+			verb = "UPDATE" // soft delete
+		}
 		for _, h := range seq {
 			if h == "|" {
 				stmtSeen = true
@@ -1742,14 +1865,18 @@ func checkFaultFree(c *Case, ex expectation, res runResult) []string {
 				}
 			}
 		}
-		for i := sp.lastBefore + 1; i < sp.firstAfter && i < len(log); i++ {
-			if log[i].Kind == "stmt" && log[i].Verb == verb && log[i].Table == w.Table {
-				txs[log[i].TxID] = true
-				break
-			}
-		}
 		if len(txs) > 1 {
-			bad("the hooks and the statement of record %s did not share one transaction (driver transactions seen: %d different)", w.Tag, len(txs))
+			bad("the hooks of record %s ran in %d different driver transactions", w.Tag, len(txs))
+		} else if len(txs) == 1 {
+			shared := false
+			for i := sp.lastBefore + 1; i < sp.firstAfter && i < len(log); i++ {
+				if log[i].Kind == "stmt" && log[i].Verb == verb && log[i].Table == w.Table && txs[log[i].TxID] {
+					shared = true
+				}
+			}
+			if !shared && n > 0 {
+				bad("the hooks and the statement of record %s did not share one transaction", w.Tag)
+			}
 		}
 		if n == 0 && sp.firstAfter <= len(log) {
 			bad("no %s statement on %s between the before-hooks and the after-hooks of record %s", verb, w.Table, w.Tag)
@@ -2123,7 +2250,11 @@ func checkStored(c *Case, ex expectation, res runResult) []string {
 			}
 		}
 		for _, sp := range sc.parents {
-			_, ok := pByID[sp.ID]
+			row, ok := pByID[sp.ID]
+			if c.kit().soft && !c.Unscoped && gone[sp.ID] && !ok {
+				bad("soft delete removed row %d", sp.ID)
+			}
+			ok = ok && !row.Deleted
 			if gone[sp.ID] && ok {
 				bad("row %d was not deleted", sp.ID)
 			}
@@ -2278,6 +2409,18 @@ func caseClasses(c *Case) []string {
 	if c.Via != "" {
 		cl = append(cl, "via:"+c.Via)
 	}
+	if c.AuditCreate {
+		cl = append(cl, "hooks-write-audits-by-create")
+	}
+	if c.History != "" {
+		cl = append(cl, "history:"+c.History)
+	}
+	if c.Handle != "" {
+		cl = append(cl, "handle:"+c.Handle)
+	}
+	if c.Unscoped {
+		cl = append(cl, "unscoped-delete")
+	}
 	if c.CondForm != "" {
 		cl = append(cl, "cond-form:"+c.CondForm)
 	}
@@ -2423,7 +2566,11 @@ func drawChildren(t *rapid.T, r *RecSpec, rich bool, k *kit) {
 	if k.hasBoss && rapid.IntRange(0, 2).Draw(t, tag+".boss") == 0 {
 		r.Boss = &KidSpec{Tag: tag + ".boss", Name: "b-" + tag}
 	}
-	n := rapid.SampledFrom([]int{0, 0, 1, 2}).Draw(t, tag+".kids")
+	kidCounts := []int{0, 0, 1, 2}
+	if harness.Thorough() {
+		kidCounts = append(kidCounts, 3, 12) // 12: beyond the capacity hint (10) of the element slices in callbacks/associations.go
+	}
+	n := rapid.SampledFrom(kidCounts).Draw(t, tag+".kids")
 	for j := 0; j < n; j++ {
 		r.Kids = append(r.Kids, KidSpec{Tag: fmt.Sprintf("%s.k%d", tag, j), Name: fmt.Sprintf("k%d-%s", j, tag)})
 	}
@@ -2456,7 +2603,12 @@ func drawCase(t *rapid.T) *Case {
 	}
 	k := c.kit()
 	isParent := c.Model == "Parent"
-	c.Op = rapid.SampledFrom(enabledOps).Draw(t, "op")
+	if c.Model == "Soft" {
+		// the soft-delete model is about Delete: draw it more often than the general mix does
+		c.Op = rapid.SampledFrom([]string{opDelete, opDelete, opDelete, opDelete, opFind, opFirst, opUpdates, opCreate, opSave}).Draw(t, "op")
+	} else {
+		c.Op = rapid.SampledFrom(enabledOps).Draw(t, "op")
+	}
 	needSeed := 0
 	switch c.Op {
 	case opUpdates, opUpdate, opUpdateColumn, opUpdateColumns, opDelete:
@@ -2724,6 +2876,9 @@ func drawCase(t *rapid.T) *Case {
 	default:
 		// hooks of a write also write a side row through their handle (must be rolled back with the rest)
 		c.Audit = rapid.IntRange(0, 2).Draw(t, "audit") == 0
+		if c.Audit {
+			c.AuditCreate = rapid.IntRange(0, 2).Draw(t, "audit-by-create") == 0
+		}
 	}
 	for _, r := range c.Recs {
 		if len(r.Items) > 0 {
@@ -2731,6 +2886,21 @@ func drawCase(t *rapid.T) *Case {
 			c.PresetLines = !c.hooksRun() || rapid.IntRange(0, 2).Draw(t, "preset-lines") == 0
 			break
 		}
+	}
+	hist := []string{"", "", "", "", "sibling-skiphooks"}
+	withChildren := false
+	for _, r := range c.Recs {
+		if r.Boss != nil || r.Mentor != nil || r.Desk != nil || len(r.Kids)+len(r.Items)+len(r.Friends) > 0 {
+			withChildren = true // the preliminary column update would already store them
+		}
+	}
+	if (c.Op == opUpdates || c.Op == opUpdate) && c.Shape != shDest && !withChildren {
+		hist = append(hist, "after-updatecolumn", "after-updatecolumn")
+	}
+	c.History = rapid.SampledFrom(hist).Draw(t, "history")
+	c.Handle = rapid.SampledFrom([]string{"", "", "", "", "withcontext", "session-initialized", "session-newdb", "debug"}).Draw(t, "handle")
+	if c.Op == opDelete && k.soft {
+		c.Unscoped = rapid.IntRange(0, 2).Draw(t, "unscoped") == 0
 	}
 	if c.Set != "" {
 		c.SetIn = rapid.SampledFrom([]string{hBeforeSave, "specific"}).Draw(t, "set-in")
@@ -2748,17 +2918,19 @@ func seedIDs(n int) []uint {
 
 // ---- the property -------------------------------------------------------------------------------
 
-const rule = "C13: rapid draws a top-level model type (Parent: all nine hooks, has-many and belongs-to children with their own hooks; or a hook SUBSET without associations: only BeforeSave+AfterSave, only AfterSave, only Before/AfterCreate, only Before/AfterUpdate, only Before/AfterDelete, only AfterFind, value-receiver Save hooks mixed with pointer-receiver Create/Update hooks; or Plain: no hooks, hooked has-many children) - the applicable hooks are read off the type's method set - " +
-	"an initial database (0-5 rows with 0-2 has-many children and an optional belongs-to child where the model has them) and one operation: " +
-	"Create / CreateInBatches / Save of &T, &[]T, &[]*T, []T, []*T (0-5 records; new, existing or missing keys for Save; optionally with new children carrying their own hooks: two belongs-to (Boss, Mentor), a has-many (Kids) and a has-many with the composite key (parent_id, line_no) whose line number the item's own BeforeCreate assigns (Items), so each association callback has two relations to save), " +
-	"Model(&T | &[]T | &[]*T).Updates(struct|map) / Update / UpdateColumn / UpdateColumns (the caller optionally writing the column the hook sets, named by field or by column), " +
-	"Delete of &T, pointer and value slices, or a zero value with a condition, optionally with Select(\"Kids\") (nested delete of the children with its own hooks), " +
-	"Find(&[]T | &[]*T | &T) / First(&T) of 0-5 rows with optional Preload of the children; with or without Session{SkipHooks}, inside or outside a caller transaction, " +
-	"with a before-hook (BeforeSave or BeforeCreate/BeforeUpdate) setting Name directly (create/save) or through Statement.SetColumn, probes issued with Exec or Raw.Scan. " +
-	"optionally every hook invocation of a write also inserts a side row into an audits table through its handle (must be stored on success, rolled back on failure). " +
+const rule = "C13: rapid draws a top-level model type - Parent (all nine hooks; children with their own hooks through two belongs-to, a has-one held by value, two has-many (one with a composite key whose second half the child's BeforeCreate assigns) and a many2many of pointers), " +
+	"a hook SUBSET without associations (only BeforeSave+AfterSave / AfterSave / Before+AfterCreate / Before+AfterUpdate / Before+AfterDelete / AfterFind), all hooks on value receivers, value-receiver Save hooks mixed with pointer-receiver Create/Update hooks, hooks promoted from an embedded struct, a soft-delete model, or Plain (no hooks, hooked has-many children held by pointer); the applicable hooks are read off the type's method set - " +
+	"an initial database (0-5 rows, 0-8 in the thorough tier, with associated rows) and one operation: " +
+	"Create (struct, pointer/value slices, array, map, slice of maps; optional OnConflict{DoNothing|UpdateAll}; Session{CreateBatchSize}) / CreateInBatches / Save (new, existing, missing keys); " +
+	"Model(&T | &[]T | &[]*T | &[2]T | &T{}+Where/primary keys).Updates(struct|map) / Update / UpdateColumn / UpdateColumns, db.Updates(&T), optionally with new children in the model, clause.Returning, the caller writing the column the hook sets; " +
+	"Delete of &T, slices, array or a zero value with an inline / chained / primary-key condition, optional Select(Kids|Desk|Friends), clause.Returning, Unscoped on the soft-delete model; " +
+	"Find / FindInBatches / First / Take / Last / FirstOrInit / FirstOrCreate with optional Preload, and Pluck / Count; " +
+	"with or without Session{SkipHooks}, default transaction on or SkipDefaultTransaction (Config or Session), PrepareStmt (Config or Session), dialector with or without RETURNING, FullSaveAssociations, DisableNestedTransaction, " +
+	"outside or inside a caller transaction (Begin, Transaction closure, nested Transaction = save point), from a plain / WithContext / Session{Initialized} / Session{NewDB} / Debug handle, after a sibling SkipHooks session or a column update on the same reusable handle; " +
+	"a before-hook of Parent may set Name directly or through Statement.SetColumn; hooks of a write may also store a side row through their handle (Exec or a nested gorm Create). " +
 	"The operation runs fault-free once (H hook invocations; event-log grammar, transaction identity and stored values checked), then EVERY h<H is run with the h-th invocation returning an error, each from an identical fresh database " +
-	"(error returned, identical prefix, no statement and no hook of another phase after the failure, no commit, database dump unchanged). " +
-	"One evaluation = one run. Non-trivial = at least two hooked records or hooked children, or the failing invocation is not the first. Distinct = initial rows + operation + argument shape + records + plan + failing index."
+	"(error returned, identical prefix, no statement and no hook of another phase after the failure, no commit, database dump unchanged unless the operation was told to run without a transaction). " +
+	"One evaluation = one run. Non-trivial = at least two hooked records or hooked children, or the failing invocation is not the first. Distinct = model + initial rows + operation + argument shape + records + options + failing index."
 
 func TestC13(t *testing.T) {
 	evid.Rule(rule)
